@@ -157,6 +157,13 @@ func (s *Stats) Record(c any, nontrivial bool, labels ...string) {
 	}
 }
 
+// AddEvals counts additional executions performed inside one recorded case (injected faults, repetitions).
+func (s *Stats) AddEvals(n int) {
+	s.mu.Lock()
+	s.Evaluations += n
+	s.mu.Unlock()
+}
+
 func (s *Stats) Label(l string, n int) {
 	s.mu.Lock()
 	s.Labels[l] += n
